@@ -518,7 +518,9 @@ Outcome(goal, c) ==
   IF HasMinus(c) THEN Unasserted("U+2212-sign")
   ELSE IF goal = "UtcOffset" THEN
     LET o == ParseOffsetStr(c) IN
-    IF ~o.ok THEN Reject(o.why) ELSE IF o.sub THEN Unasserted("sub-minute-utc-offset")
+    \* UTCOffset[+SubMinutePrecision] (the offset field of a property bag): a seconds part with up to nine fraction digits is grammatical and
+    \* must be accepted; which minute value an implementation with minute precision keeps for it is not asserted
+    IF ~o.ok THEN Reject(o.why) ELSE IF o.sub THEN AcceptNoVal("sub-minute-utc-offset")
     ELSE Accept([min |-> OffMinutes(o), str |-> Chars(OffsetText(OffMinutes(o)))])
   ELSE IF goal = "TimeZoneId" THEN TzIdOutcome(c)
   ELSE IF goal = "TimeZone" THEN TimeZoneOutcome(c)
